@@ -155,7 +155,7 @@ func arith(e *env, name string, newState bool, retained uint64) {
 		return
 	}
 	head := uint64(base.height)
-	l1s := []int64{-1, 0, 1, 2, 9, 10, 11, 12, 13, 14, 20}
+	l1s := []int64{-1, 0, 2, 9, 11, 12, 13, 14, 20}
 	for _, l1 := range l1s {
 		for _, l2pp := range []uint64{1, 2} {
 			for _, batch := range []int{1, hugeBatch} {
@@ -303,8 +303,36 @@ func leadJobs(f lib.Flags) []job {
 		ns := ns
 		name := jobName("lead-L10/new=%v", ns)
 		jobs = append(jobs, job{name: name, run: func(e *env) { leadL10(e, name, ns) }})
+		name2 := jobName("lead-interrupt-small/new=%v", ns)
+		jobs = append(jobs, job{name: name2, run: func(e *env) { leadSmall(e, name2, ns) }})
 	}
 	return jobs
+}
+
+// The smallest histories that show an interrupted prune: 9 blocks, retained 0, L1 head 6 (prune [0,6)),
+// 1-byte batch threshold; (a) the context is cancelled after the 2nd batch, restart; (b) a crash image after
+// every batch, each restarted.
+func leadSmall(e *env, name string, newState bool) {
+	base, err := getBase(fmt.Sprintf("plain9/%v", newState), 13, newState, true, 10, 9)
+	if err != nil {
+		e.res.Note("%s: %v", name, err)
+		return
+	}
+	for _, mode := range []string{"cancel", "crash"} {
+		w := cloneWorld(e, base, prunerCfg{Retained: 0, L2PerPrune: 1, BatchBytes: 1}, 0, name, map[string]any{"mode": mode})
+		w.writeL1(6)
+		plan := noPlan()
+		if mode == "cancel" {
+			plan.CancelAt = 1
+		} else {
+			plan.ForkAll = true
+		}
+		w.event("l1", 6, 0, plan)
+		w.observe()
+		w.event("l1", 6, 0, noPlan())
+		w.observe()
+		w.close()
+	}
 }
 
 // 30 blocks each rewriting one slot; retained 0, L1 head 20: prune [0,20) with a 1-byte batch threshold;
